@@ -40,6 +40,11 @@ def gen(rng, n, tier):
             gap = rng.random() < 0.3
             pairs = [[ax[0][k], ax[0][k + 1]] for k in range(len(ax[0]) - 1)]
             if gap and len(pairs) > 1: pairs = [[a, fl(float(a) + (float(b) - float(a)) * 0.7)] if rng.random() < 0.5 else [a, b] for a, b in pairs]
+            if gap and rng.random() < 0.5:      # far from zero: the gaps are tiny relative to the edge values (time stamps, rings at large radii)
+                off = float(rng.choice([1e6, 1e7, 1e9])) * s
+                pairs = [[fl(float(a) + off), fl(float(b) + off)] for a, b in pairs]
+                pairs = [p_ for p_ in pairs if p_[0] < p_[1]]
+                pairs = [p_ for k_, p_ in enumerate(pairs) if k_ == 0 or pairs[k_ - 1][1] <= p_[0]] or [[fl(off), fl(off + s)]]
             axes = [pairs]
         else:
             e = {"Histogram2D": lambda: [lin(), lin()], "HistogramND": lambda: [lin(), lin(), lin()], "RadialHistogram": lambda: [rad()],
